@@ -139,6 +139,7 @@ type Exec struct {
 	pruned           int
 	qn               int
 	lastLocalMods    []*Loc
+	qfForward        bool    // instantiation order used by the quantifier-free weakening of the current attempt
 	pendingInv       []*Term // assumed field ranges of values read while evaluating a contract expression
 }
 
